@@ -219,3 +219,53 @@ func compare(exp Expect, got Outcome, withEvents bool, gotEvents []model.Event) 
 	}
 	return ""
 }
+
+// concurrentBurst runs G goroutines that each evaluate N inputs made by mk
+// (fresh per goroutine and step) through EvaluateString. Every result must
+// equal want. State that the library memoises per name, text or type is
+// filled in under contention here; an unsynchronised map usually ends the
+// process (the supervisor then reports the case in flight).
+func concurrentBurst(c *core.Ctx, G, N int, mk func(g, n int) (src string, data map[string]any, want string)) {
+	type bad struct{ src, got, want string }
+	var mu sync.Mutex
+	var bads []bad
+	var wg sync.WaitGroup
+	start := make(chan struct{})
+	for g := 0; g < G; g++ {
+		wg.Add(1)
+		go func(g int) {
+			defer wg.Done()
+			defer func() {
+				if r := recover(); r != nil {
+					mu.Lock()
+					bads = append(bads, bad{"(goroutine)", fmt.Sprint("panic: ", r), ""})
+					mu.Unlock()
+				}
+			}()
+			<-start
+			for n := 0; n < N; n++ {
+				src, data, want := mk(g, n)
+				out, err := textwire.EvaluateString(src, data)
+				got := out
+				if err != nil {
+					got = "error: " + err.Error()
+				}
+				if got != want {
+					mu.Lock()
+					bads = append(bads, bad{src, got, want})
+					mu.Unlock()
+				}
+			}
+		}(g)
+	}
+	close(start)
+	wg.Wait()
+	c.Eval(G * N)
+	c.Count("concurrent_evaluations", G*N)
+	for i, b := range bads {
+		if i >= 3 {
+			break
+		}
+		c.Violation("concurrent-burst", fmt.Sprintf("evaluated next to other goroutines %q gave %q, want %q", clipS(b.src, 200), clipS(b.got, 300), clipS(b.want, 300)), map[string]any{"source": b.src})
+	}
+}
